@@ -4,7 +4,7 @@
    ones, membership in la / lq is exactly status Active / Queued, every other record is unlinked. *)
 From Coq Require Import List NArith Bool Lia.
 From Verif Require Import Common.Util Staker.Model Staker.Base Staker.Lists Staker.Inv Staker.RList Staker.Inv2 Staker.ProofsStep
-  Staker.ProofsUser Staker.ProofsUser2 Staker.ProofsHist Staker.Held Staker.ProofsEpoch Staker.ProofsAll Staker.ProofsCustody Staker.ProofsKeys.
+  Staker.ProofsUser Staker.ProofsUser2 Staker.ProofsHist Staker.Held Staker.ProofsEpoch Staker.ProofsAll Staker.ProofsCustody Staker.ProofsKeys Staker.Witness.
 Import ListNotations.
 Open Scope N_scope.
 
@@ -166,18 +166,15 @@ Proof. exact (block_error_skips_housekeeping c s). Qed.
 Definition sync_never_errs_statement : Prop :=
   forall c d m ops, exists r, let s := run c (init d m) ops in sync_pos c (blk s + 1) (w_blk (blk s + 1) s) = Ok r.
 
-Definition big_cfg : cfg := mkC 4 8 12 16 4 8 8 0 0.
-Definition big_ops : list op :=
-  map (fun i => OAddValidation (4096 + N.of_nat i) (61440 + N.of_nat i) 8 25000000) (seq 0 102) ++
-  repeat OBlock 5 ++ map (fun i => OSetOnline (4096 + N.of_nat i) false) (seq 0 102) ++ repeat OBlock 10.
+(* witness history (Staker/Witness.v, computed once): big_cfg, big_ops, big_sync_errs, big_block_is_skipped *)
 Theorem sync_never_errs_refuted : ~ sync_never_errs_statement.
 Proof.
-  intros H. destruct (H big_cfg 0 102 big_ops) as [r Hr]. vm_compute in Hr. discriminate.
+  intros H. destruct (H big_cfg 0 102 big_ops) as [r Hr]. cbv zeta in Hr. rewrite big_sync_errs in Hr. discriminate.
 Qed.
 Example eviction_overflow_block_is_skipped :
   let s := run big_cfg (init 0 102) big_ops in
   (blk s, l_size (act s), answer big_cfg s OBlock, blk (step big_cfg s OBlock), l_size (act (step big_cfg s OBlock))) = (15, 102, (0, 6), 16, 102).
-Proof. vm_compute. reflexivity. Qed.
+Proof. exact big_block_is_skipped. Qed.
 
 (* ---- "never empty the set" ---- *)
 
